@@ -1,6 +1,7 @@
 package main
 
 import (
+	"syscall"
 	"context"
 	"fmt"
 	"os"
@@ -20,7 +21,9 @@ import (
 // then queried through the real Proxy.Resolve with a real discovery.Hosts as LocalResolver and a
 // counting upstream: L = answered locally, U = sent upstream.
 //
-//   hrefresh <ok|long:<k>|dir> <names of file 1> <names of file 2> <pool>
+//   hrefresh <ok|long:<k>|dir|emfile> <names of file 1> <names of file 2> <pool>
+// p1: after loading file 1; p2: after the rewrite and a refresh (long / dir: the re-read fails for good; emfile: it fails
+// this once because the file cannot be opened); p3: after one more refresh with the file untouched since.
 
 type countUp struct{ n int }
 
@@ -101,11 +104,26 @@ func runHRefresh(dir, variant string, n1, n2, pool []string) string {
 	case strings.HasPrefix(variant, "long:"):
 		k, _ := strconv.Atoi(variant[5:])
 		_ = os.WriteFile(path, []byte(hostsText(n2, k)), 0644)
+	case variant == "emfile":
+		// the new file is fine but cannot be OPENED at the moment of the refresh (the process is out of file descriptors);
+		// its stat works. The fault is gone at the next refresh.
+		_ = os.WriteFile(path, []byte(hostsText(n2, -1)+"# v2\n"), 0644)
 	}
 	_ = os.Chtimes(path, time.Now(), time.Now().Add(-time.Hour))
 	h.VerifExpire()
+	var old syscall.Rlimit
+	if variant == "emfile" {
+		_ = syscall.Getrlimit(syscall.RLIMIT_NOFILE, &old)
+		_ = syscall.Setrlimit(syscall.RLIMIT_NOFILE, &syscall.Rlimit{Cur: 0, Max: old.Max})
+	}
 	p2 := ask()
-	return "p1=" + p1 + " p2=" + p2
+	if variant == "emfile" {
+		_ = syscall.Setrlimit(syscall.RLIMIT_NOFILE, &old)
+	}
+	// the next refresh (5 s later in real life): nothing about the file has changed since the last one
+	h.VerifExpire()
+	p3 := ask()
+	return "p1=" + p1 + " p2=" + p2 + " p3=" + p3
 }
 
 func wireNameFromDotted(n string) []byte {
@@ -156,7 +174,9 @@ func init() {
 		for i := 0; i < c.n; i++ {
 			n1, n2 := sub(), sub()
 			variant := "ok"
-			switch r.Intn(4) {
+			switch r.Intn(6) {
+			case 4, 5:
+				variant = "emfile"
 			case 1:
 				variant = "dir"
 			case 2, 3:
